@@ -185,6 +185,7 @@ type Sched struct {
 	nchan      int
 	mainDone   bool
 	driverCtx  bool
+	rearm      []*timer // periodic timers re-armed while advance() walks the timer list
 	execThread *Thread // thread whose operation the driver is executing (nil outside exec)
 	sigctx     []*vctx
 	exited     bool
@@ -556,6 +557,7 @@ func Run(prefix []int, cfg func(s *Sched), main func()) *Exec {
 	S = s
 	s.spawn("m", func() { main(); s.mainDone = true })
 	var last *Thread
+	idle := 0
 	for {
 		var en []*Thread
 		for _, t := range s.threads {
@@ -583,9 +585,15 @@ func Run(prefix []int, cfg func(s *Sched), main func()) *Exec {
 					continue
 				}
 			}
+			// a periodic timer nobody listens to must not keep an otherwise dead execution alive
+			idle++
+			if idle > 100000 {
+				break
+			}
 			s.advance()
 			continue
 		}
+		idle = 0
 		// order alternatives: default first (the running thread if still enabled, else round robin)
 		start := 0
 		if last != nil {
@@ -731,7 +739,8 @@ func (s *Sched) advance() {
 			live = append(live, tm)
 		}
 	}
-	s.timers = live
+	s.timers = append(live, s.rearm...)
+	s.rearm = nil
 }
 
 // AddEvent registers an environment event the explorer may inject at any choice point, free of charge.
